@@ -32,6 +32,16 @@ type finState struct {
 	done  int // number of times the finally region was passed on this path (0,1,2=more)
 	min   int // minimum over joined paths
 	match bool
+	flags map[types.Object]tri // boolean locals with a known value
+}
+
+func (s *finState) clone() *finState {
+	c := *s
+	c.flags = map[types.Object]tri{}
+	for k, v := range s.flags {
+		c.flags[k] = v
+	}
+	return &c
 }
 
 func c05Run(r *Run) {
@@ -77,20 +87,6 @@ func c05Run(r *Run) {
 		max int
 	}
 	analyse := func(fd *ast.FuncDecl) (exits []exitRec, twice []token.Pos, recoverPos token.Pos) {
-		h := &Hooks{Info: info}
-		h.Copy = func(s State) State { c := *s.(*finState); return &c }
-		h.Join = func(a, b State) State {
-			x, y := a.(*finState), b.(*finState)
-			n := *x
-			if y.done > n.done {
-				n.done = y.done
-			}
-			if y.min < n.min {
-				n.min = y.min
-			}
-			return &n
-		}
-		h.Equal = func(a, b State) bool { return *a.(*finState) == *b.(*finState) }
 		pass := func(s *finState, p token.Pos) {
 			if s.done >= 1 {
 				twice = append(twice, p)
@@ -102,99 +98,167 @@ func c05Run(r *Run) {
 				s.min++
 			}
 		}
-		h.Cond = func(e ast.Expr, truth bool, st State) State {
-			s := st.(*finState)
-			// len(t.FinallyBlock) > 0 false  ⇒ nothing to run: counts as passed
-			if be, ok := ast.Unparen(e).(*ast.BinaryExpr); ok {
-				if c, ok := ast.Unparen(be.X).(*ast.CallExpr); ok && len(c.Args) == 1 {
-					if id, ok := ast.Unparen(c.Fun).(*ast.Ident); ok && id.Name == "len" && fieldOf(c.Args[0]) == fFinally {
-						empty := false
-						switch be.Op {
-						case token.GTR, token.NEQ:
-							empty = !truth
-						case token.EQL:
-							empty = truth
-						}
-						if empty {
-							pass(s, e.Pos())
-						}
+		var deferred []*ast.FuncLit
+		var walkBody func(body *ast.BlockStmt, entry *finState, endPos token.Pos, onExit func(s *finState, p token.Pos))
+		walkBody = func(body *ast.BlockStmt, entry *finState, endPos token.Pos, onExit func(s *finState, p token.Pos)) {
+			finRanges := map[*ast.RangeStmt]bool{}
+			ast.Inspect(body, func(n ast.Node) bool {
+				if _, ok := n.(*ast.FuncLit); ok && n != ast.Node(body) {
+					return false
+				}
+				if rs, ok := n.(*ast.RangeStmt); ok && fieldOf(rs.X) == fFinally {
+					finRanges[rs] = true
+				}
+				return true
+			})
+			h := &Hooks{Info: info}
+			h.Copy = func(s State) State { return s.(*finState).clone() }
+			h.Join = func(a, b State) State {
+				x, y := a.(*finState), b.(*finState)
+				n := x.clone()
+				if y.done > n.done {
+					n.done = y.done
+				}
+				if y.min < n.min {
+					n.min = y.min
+				}
+				for k, v := range x.flags {
+					if y.flags[k] != v {
+						delete(n.flags, k)
 					}
 				}
+				return n
 			}
-			if fieldOf(e) == nil {
-				if be, ok := ast.Unparen(e).(*ast.BinaryExpr); ok && (be.Op == token.NEQ || be.Op == token.EQL) {
-					// t.FinallyBlock != nil
-					if fieldOf(be.X) == fFinally {
+			h.Equal = func(a, b State) bool {
+				x, y := a.(*finState), b.(*finState)
+				if x.done != y.done || x.min != y.min || len(x.flags) != len(y.flags) {
+					return false
+				}
+				for k, v := range x.flags {
+					if y.flags[k] != v {
+						return false
+					}
+				}
+				return true
+			}
+			h.Cond = func(e ast.Expr, truth bool, st State) State {
+				s := st.(*finState)
+				if id, ok := ast.Unparen(e).(*ast.Ident); ok {
+					if v, known := s.flags[info.Uses[id]]; known {
+						if (v == triT) != truth {
+							return nil
+						}
+					}
+					return s
+				}
+				// len(t.FinallyBlock) > 0 false  ⇒ nothing to run: counts as passed
+				if be, ok := ast.Unparen(e).(*ast.BinaryExpr); ok {
+					if c, ok := ast.Unparen(be.X).(*ast.CallExpr); ok && len(c.Args) == 1 {
+						if id, ok := ast.Unparen(c.Fun).(*ast.Ident); ok && id.Name == "len" && fieldOf(c.Args[0]) == fFinally {
+							empty := false
+							switch be.Op {
+							case token.GTR, token.NEQ:
+								empty = !truth
+							case token.EQL:
+								empty = truth
+							}
+							if empty {
+								pass(s, e.Pos())
+							}
+						}
+					}
+					if (be.Op == token.NEQ || be.Op == token.EQL) && fieldOf(be.X) == fFinally {
 						if (be.Op == token.NEQ && !truth) || (be.Op == token.EQL && truth) {
 							pass(s, e.Pos())
 						}
 					}
 				}
+				return s
 			}
-			return s
-		}
-		// the range over FinallyBlock: passing it (entering or skipping when empty) counts once, at loop exit.
-		inFinRange := map[*ast.RangeStmt]bool{}
-		ast.Inspect(fd.Body, func(n ast.Node) bool {
-			if rs, ok := n.(*ast.RangeStmt); ok && fieldOf(rs.X) == fFinally {
-				inFinRange[rs] = true
-			}
-			return true
-		})
-		h.Node = func(s ast.Stmt, st State) {}
-		h.Visit = func(e ast.Expr, st State) State {
-			s := st.(*finState)
-			if c, ok := e.(*ast.CallExpr); ok {
-				if cal, ok := calleeOf(info, c).(*types.Func); ok && runsFinally[cal] {
-					pass(s, c.Pos())
+			h.Visit = func(e ast.Expr, st State) State {
+				s := st.(*finState)
+				if c, ok := e.(*ast.CallExpr); ok {
+					if cal, ok := calleeOf(info, c).(*types.Func); ok && runsFinally[cal] {
+						pass(s, c.Pos())
+					}
 				}
+				return s
 			}
-			return s
-		}
-		h.Stmt = func(stm ast.Stmt, st State) State {
-			if d, ok := stm.(*ast.DeferStmt); ok {
-				if lit, ok := ast.Unparen(d.Call.Fun).(*ast.FuncLit); ok {
-					ast.Inspect(lit.Body, func(n ast.Node) bool {
-						if c, ok := n.(*ast.CallExpr); ok {
-							if id, ok := ast.Unparen(c.Fun).(*ast.Ident); ok && id.Name == "recover" {
-								recoverPos = c.Pos()
+			h.Stmt = func(stm ast.Stmt, st State) State {
+				s := st.(*finState)
+				switch x := stm.(type) {
+				case *ast.DeferStmt:
+					if lit, ok := ast.Unparen(x.Call.Fun).(*ast.FuncLit); ok {
+						hasRecover := false
+						ast.Inspect(lit.Body, func(n ast.Node) bool {
+							if c, ok := n.(*ast.CallExpr); ok {
+								if id, ok := ast.Unparen(c.Fun).(*ast.Ident); ok && id.Name == "recover" {
+									hasRecover = true
+									recoverPos = c.Pos()
+								}
 							}
+							return true
+						})
+						if !hasRecover {
+							deferred = append(deferred, lit)
 						}
-						return true
-					})
+					} else if cal, ok := calleeOf(info, x.Call).(*types.Func); ok && runsFinally[cal] {
+						// defer t.runFinally(ctx): modelled as a closure-less deferred pass
+						deferred = append(deferred, nil)
+					}
+				case *ast.AssignStmt:
+					for i, l := range x.Lhs {
+						id, ok := l.(*ast.Ident)
+						if !ok || i >= len(x.Rhs) {
+							continue
+						}
+						o := info.Defs[id]
+						if o == nil {
+							o = info.Uses[id]
+						}
+						if o == nil {
+							continue
+						}
+						switch exprStr(x.Rhs[i]) {
+						case "true":
+							s.flags[o] = triT
+						case "false":
+							s.flags[o] = triF
+						default:
+							delete(s.flags, o)
+						}
+					}
 				}
+				return s
 			}
-			return st
-		}
-		// model: a range over FinallyBlock — returns inside it (a control raised by finally overrides) are exits that have passed the region
-		h.RangeBody = func(rs *ast.RangeStmt, st State) State {
-			s := st.(*finState)
-			if inFinRange[rs] {
-				// inside the region: mark as passed for exits from inside
-				if s.done == 0 {
-					s.done, s.min = 1, 1
-				}
-			}
-			return s
-		}
-		h.LoopHead = func(loop ast.Stmt, st State) State { return st }
-		h.Return = func(rs *ast.ReturnStmt, st State) {
-			s := st.(*finState)
-			exits = append(exits, exitRec{rs.Pos(), s.min, s.done})
-		}
-		h.End = func(st State) {
-			s := st.(*finState)
-			exits = append(exits, exitRec{fd.Body.Rbrace, s.min, s.done})
-		}
-		// a range over FinallyBlock with zero iterations must also count: handled by treating the
-		// loop exit state: the walker joins head (not passed) with body exits. Patch: pre-pass marks.
-		WalkFunc(&Hooks{Info: info, Copy: h.Copy, Join: h.Join, Equal: h.Equal, Cond: h.Cond, Visit: h.Visit, Stmt: h.Stmt,
-			RangeBody: h.RangeBody, Return: h.Return, End: h.End,
-			Node: func(s ast.Stmt, st State) {
-				if rs, ok := s.(*ast.RangeStmt); ok && inFinRange[rs] {
+			h.Node = func(stm ast.Stmt, st State) {
+				if rs, ok := stm.(*ast.RangeStmt); ok && finRanges[rs] {
 					pass(st.(*finState), rs.Pos())
 				}
-			}}, fd.Body, &finState{})
+			}
+			h.Return = func(rs *ast.ReturnStmt, st State) { onExit(st.(*finState), rs.Pos()) }
+			h.End = func(st State) { onExit(st.(*finState), endPos) }
+			WalkFunc(h, body, entry)
+		}
+		var atExit func(s *finState, p token.Pos, k int)
+		atExit = func(s *finState, p token.Pos, k int) {
+			// run the deferred closures registered so far, last first
+			if k < 0 {
+				exits = append(exits, exitRec{p, s.min, s.done})
+				return
+			}
+			lit := deferred[k]
+			if lit == nil {
+				c := s.clone()
+				pass(c, p)
+				atExit(c, p, k-1)
+				return
+			}
+			walkBody(lit.Body, s.clone(), p, func(s2 *finState, _ token.Pos) { atExit(s2, p, k-1) })
+		}
+		walkBody(fd.Body, &finState{flags: map[types.Object]tri{}}, fd.Body.Rbrace, func(s *finState, p token.Pos) {
+			atExit(s, p, len(deferred)-1)
+		})
 		return
 	}
 	for changed := true; changed; {
